@@ -57,6 +57,30 @@ let parse_fobs toks : (BinNums.coq_Z list * ((BinNums.coq_Z * BinNums.coq_Z) * (
      | [] -> failwith "fobs line")
   | _ -> None
 
+(* "fraw": the raw inputs of the valuation (c19v_test.go) *)
+let parse_fraw toks : (FarmValue.pool_raw list * (BinNums.coq_Z * (BinNums.coq_Z * BinNums.coq_Z) list) list) option =
+  match toks with
+  | "err" :: _ | [] -> None
+  | np :: rest ->
+    let (pg, rest) = groups 10 (int_of_string np) rest in
+    let price f t d = if f = "1" then Some (zs t, zs d) else None in
+    let pools = L.map (function
+        | [pid; rx; ry; ps; qf; qt; qd; bf; bt; bd] ->
+          { FarmValue.p_id = zs pid; p_rx = zs rx; p_ry = zs ry; p_ps = zs ps; p_q = price qf qt qd; p_b = price bf bt bd }
+        | _ -> failwith "fraw pool") pg in
+    (match rest with
+     | nf :: rest ->
+       let rec farmers k l = if k <= 0 then [] else
+           (match l with
+            | a :: kk :: tl ->
+              let (g2, tl') = groups 2 (int_of_string kk) tl in
+              (zs a, L.map (function [p; c] -> (zs p, zs c) | _ -> failwith "fraw farmer") g2) :: farmers (k - 1) tl'
+            | _ -> failwith "fraw farmers") in
+       Some (pools, farmers (int_of_string nf) rest)
+     | [] -> failwith "fraw line")
+let show_fobs (obs : ((BinNums.coq_Z * BinNums.coq_Z) * (BinNums.coq_Z * BinNums.coq_Z) list) list) =
+  S.concat ";" (L.map (fun ((a, v), others) -> sz a ^ "=" ^ sz v ^ "[" ^ S.concat "," (L.map (fun (p, w) -> sz p ^ ":" ^ sz w) others) ^ "]") obs)
+
 let parse_meta toks : Gauge.gmeta option = match toks with
   | pool :: master :: n :: rest ->
     let (ids, _) = take (int_of_string n) rest in
@@ -91,8 +115,8 @@ let run (path : string) =
   (* the liquidity metadata each gauge was CREATED with (from the message; model side), by gauge index, for the
      whole case; the stored metadata of the gauge records (implementation side) as observed after the step *)
   let metas : (int, Gauge.gmeta) Hashtbl.t = Hashtbl.create 8 in
-  let gms : (int, Gauge.gmeta) Hashtbl.t = Hashtbl.create 8 and fobs = Hashtbl.create 8 in
-  let reset_step () = Hashtbl.reset gms; Hashtbl.reset fobs; sxs := []; Hashtbl.reset senv; Hashtbl.reset srecs; height := "0"; op := []; Hashtbl.reset farm; Hashtbl.reset calc; Hashtbl.reset recv; Hashtbl.reset xenv; Hashtbl.reset lenv; Hashtbl.reset halt; res := ""; pays := [];
+  let gms : (int, Gauge.gmeta) Hashtbl.t = Hashtbl.create 8 and fobs = Hashtbl.create 8 and fraw = Hashtbl.create 8 in
+  let reset_step () = Hashtbl.reset gms; Hashtbl.reset fobs; Hashtbl.reset fraw; sxs := []; Hashtbl.reset senv; Hashtbl.reset srecs; height := "0"; op := []; Hashtbl.reset farm; Hashtbl.reset calc; Hashtbl.reset recv; Hashtbl.reset xenv; Hashtbl.reset lenv; Hashtbl.reset halt; res := ""; pays := [];
     split := None; gs := []; es := []; xs := []; bs := [] in
   let end_case () =
     if !case <> "" then begin
@@ -205,7 +229,37 @@ let run (path : string) =
                | Some mm, Some toks ->
                  (match parse_fobs toks with
                   | Some (others, obs) ->
-                    let e = Gauge.farm_env_of mm others obs in
+                    (* the farmed values recomputed by the MODEL (Model/FarmValue.v) from the raw reserves, supplies,
+                       farmed pool coins and oracle data, against the values the implementation returned *)
+                    let obs_used = ref obs in
+                    (match (try parse_fraw (Hashtbl.find fraw i) with Not_found -> None) with
+                     | Some (pools, fs) ->
+                       let mobs = FarmValue.farm_obs mm.Gauge.m_pool pools fs in
+                       (* eligibility (and with it holds_C19_share) is judged on the MODEL's values: true farmed value *)
+                       obs_used := mobs;
+                       bump "farmvalue:compared";
+                       L.iter (fun (p : FarmValue.pool_raw) ->
+                           if BinInt.Z.eqb p.FarmValue.p_id mm.Gauge.m_pool then ()
+                           else if L.exists (fun (_, vals) -> L.exists (fun (q, _) -> BinInt.Z.eqb q p.FarmValue.p_id) vals) mobs then
+                             bump (match p.FarmValue.p_q, p.FarmValue.p_b with
+                                 | Some _, _ -> "farmvalue:child-position:quote-coin-priced"
+                                 | None, Some _ -> if BinInt.Z.eqb p.FarmValue.p_rx p.FarmValue.p_ry then "farmvalue:child-position:base-coin-priced:reserves-1:1"
+                                   else "farmvalue:child-position:base-coin-priced:reserves-not-1:1"
+                                 | None, None -> "farmvalue:child-position:unpriced")) pools;
+                       cmpf (Printf.sprintf "farmvalue[%d]" i) (show_fobs mobs) (show_fobs obs);
+                       (* farmers capped by their master position / by their child position, with an unpriced quote coin in a child *)
+                       if mm.Gauge.m_master then begin
+                         let ids = Gauge.child_ids mm others in
+                         let unq = L.exists (fun (p : FarmValue.pool_raw) -> p.FarmValue.p_q = None && p.FarmValue.p_b <> None
+                                                                             && L.exists (fun q -> BinInt.Z.eqb q p.FarmValue.p_id) ids) pools in
+                         L.iter (fun ((_, v), vals) ->
+                             let c = Gauge.child_value ids vals in
+                             if BinInt.Z.ltb z0 c then
+                               bump ((if BinInt.Z.leb v c then "farmvalue:farmer-capped-by-master" else "farmvalue:farmer-capped-by-child")
+                                     ^ (if unq then ":child-quote-unpriced" else ""))) mobs
+                       end
+                     | None -> bump "farmvalue:no-raw");
+                    let e = Gauge.farm_env_of mm others !obs_used in
                     (* which populations this gauge sees: master farmers with a listed child / an unlisted pool only / nothing else *)
                     if mm.Gauge.m_master && mm.Gauge.m_child <> [] then begin
                       let ids = Gauge.child_ids mm others in
@@ -390,6 +444,7 @@ let run (path : string) =
       | "env" :: k :: _ -> bump ("env:" ^ k); Buffer.add_string sig_ line
       | "farm" :: i :: rest -> Hashtbl.replace farm (int_of_string i) rest; Buffer.add_string sig_ line
       | "fobs" :: i :: rest -> Hashtbl.replace fobs (int_of_string i) rest
+      | "fraw" :: i :: rest -> Hashtbl.replace fraw (int_of_string i) rest
       | "gm" :: i :: rest -> (match parse_meta rest with Some mm -> Hashtbl.replace gms (int_of_string i) mm | None -> ())
       | "calc" :: i :: rest -> Hashtbl.replace calc (int_of_string i) rest
       | "recv" :: i :: rest -> Hashtbl.replace recv (int_of_string i) rest; Buffer.add_string sig_ line
